@@ -14,7 +14,7 @@ def native_check(seed=0, n_files=4):
     fails = []
     try:
         for t in range(n_files):
-            N, n = int(rng.integers(2, 9)), int(rng.integers(2, 5))
+            N, n = int(rng.integers(1, 9)), (1 if t % 3 == 0 else int(rng.integers(1, 5)))      # one site and one row included
             samples = rng.integers(0, 2, size=(N, n))
             psi = rng.normal(size=(2 ** n, 2))
             re_, im_ = rng.normal(size=(2 ** n, 2 ** n)), rng.normal(size=(2 ** n, 2 ** n))
